@@ -113,9 +113,18 @@ impl Ctx {
         // distinct & non-trivial: distinct op text; bucket by result class
         let h = fxhash(op.as_bytes());
         let _ = self.distinct.insert(h);
-        let class = result.split(' ').take(2).collect::<Vec<_>>().join(" ");
-        let key = format!("{} -> {}", op.split(' ').next().unwrap_or(""), truncate(&class, 40));
-        *self.distribution.entry(key).or_insert(0) += 1;
+        // bucket = operation name x result class (a small vocabulary; anything else is just "value")
+        let mut it = result.split(' ');
+        let first = it.next().unwrap_or("");
+        let class = match first {
+            "ok" | "panic" | "abort" | "practice" | "laps" | "hours" | "-" => first.to_string(),
+            "err" => format!("err {}", it.next().unwrap_or("").split('(').next().unwrap_or("")),
+            _ => "value".to_string(),
+        };
+        let key = format!("{} -> {}", op.split(' ').next().unwrap_or(""), class);
+        if self.distribution.len() < 400 || self.distribution.contains_key(&key) {
+            *self.distribution.entry(key).or_insert(0) += 1;
+        }
         if self.samples.len() < 12 && (self.lines < 4 || self.rng.chance(1, 1 + self.lines / 8)) {
             self.samples.push(format!("{} => {}", truncate(op, 160), truncate(result, 160)));
         }
